@@ -330,6 +330,9 @@ pub struct RunLog {
     pub unresumed: Option<Unresumed>,
     /// Polls of the parser stream after it had returned `None`.
     pub parser_polled_after_end: u64,
+    /// Rounds in which nothing but a retry-delay timer could make progress (no gate pending, a
+    /// delayed retry outstanding) and the runner kept waking itself instead of waiting for the timer.
+    pub busy_wait_during_delay: u64,
 }
 
 #[derive(Clone, Debug)]
@@ -342,11 +345,17 @@ pub struct Unresumed {
 }
 
 static PROBE: AtomicU64 = AtomicU64::new(0);
+/// Every installed probe hook has its own generation; `PROBE_LAST_GEN` is the generation of the
+/// instance that handled the last panic (tells *which* hook is in place after a run).
+static PROBE_GEN: AtomicU64 = AtomicU64::new(0);
+static PROBE_LAST_GEN: AtomicU64 = AtomicU64::new(0);
 struct ProbeMarker;
 
 pub fn install_probe_hook() {
-    panic::set_hook(Box::new(|info| {
+    let generation = PROBE_GEN.fetch_add(1, Ordering::SeqCst) + 1;
+    panic::set_hook(Box::new(move |info| {
         PROBE.fetch_add(1, Ordering::SeqCst);
+        PROBE_LAST_GEN.store(generation, Ordering::SeqCst);
         if info.payload().downcast_ref::<ProbeMarker>().is_none() && std::env::var_os("VERIF_DEBUG").is_some() {
             eprintln!("[vlab] panic outside a run: {info}");
         }
@@ -408,6 +417,8 @@ pub fn build_runner(case: &RCase) -> runner::Basic<W> {
         .given(Some(AMB_LOC_2), re_amb.clone(), step_fn2)
         .when(Some(AMB_LOC_2), re_amb.clone(), step_fn2)
         .then(Some(AMB_LOC_2), re_amb, step_fn2);
+    // `thn` steps: defined for `Then` only (same line as the generic definition, another file)
+    let coll = coll.then(Some(step::Location { path: "vlab/then_only.rs", line: OK_LOC.line, column: 1 }), regex::Regex::new("^thn .*$").unwrap(), step_fn);
     let re_dup = regex::Regex::new(RE_DUP).unwrap();
     let coll = coll
         .given(Some(DUP_LOC_1), re_dup.clone(), step_fn2)
@@ -495,9 +506,13 @@ pub fn prepare(case: &RCase) -> (LabParser, Arc<AtomicU64>) {
     with_lab(|l| {
         let log_hook = l.log_hook;
         let span_hook = l.span_hook;
+        let span_release_hook = l.span_release_hook;
+        let unattributed_log_hook = l.unattributed_log_hook;
         *l = Lab::default();
         l.log_hook = log_hook;
         l.span_hook = span_hook;
+        l.span_release_hook = span_release_hook;
+        l.unattributed_log_hook = unattributed_log_hook;
         l.plan = case.plan.clone();
         l.wn_plan = case.wn_plan.clone();
         if case.custom_classifier {
@@ -523,12 +538,19 @@ pub fn prepare(case: &RCase) -> (LabParser, Arc<AtomicU64>) {
 pub fn run_case(case: &RCase, sched: &mut Schedule<'_>) -> RunLog {
     let (parser, delivered) = prepare(case);
     let mut stream = build_runner(case).run(parser, build_cli(case));
+    // `Runner::run` only describes the run. The process panic hook "installed before the run" is
+    // the one in place when the stream is first polled: every other case installs a fresh hook
+    // between the two moments.
+    if case.plan.len() % 2 == 0 {
+        install_probe_hook();
+    }
     run_with(case, sched, &mut |cx| stream.as_mut().poll_next(cx), &delivered, QUIESCE_POLLS)
 }
 
 /// The driver loop over any source of events (`poll` = the stream's `poll_next`).
 pub fn run_with(case: &RCase, sched: &mut Schedule<'_>, poll: &mut dyn FnMut(&mut Context<'_>) -> Poll<Option<RawEv>>, delivered: &Arc<AtomicU64>, quiesce_polls: usize) -> RunLog {
     let probe0 = PROBE.load(Ordering::SeqCst);
+    let gen_at_start = PROBE_GEN.load(Ordering::SeqCst);
 
     let flag = Arc::new(Flag(AtomicBool::new(false), thread::current()));
     let waker = Waker::from(Arc::clone(&flag));
@@ -552,6 +574,7 @@ pub fn run_with(case: &RCase, sched: &mut Schedule<'_>, poll: &mut dyn FnMut(&mu
     let mut busy = false;
     let mut wait_started: Option<Instant> = None;
     let mut unresumed: Option<Unresumed> = None;
+    let mut busy_wait_during_delay = 0u64;
 
     let end = 'outer: loop {
         // ---- poll until quiescent
@@ -674,6 +697,9 @@ pub fn run_with(case: &RCase, sched: &mut Schedule<'_>, poll: &mut dyn FnMut(&mu
                 break 'outer give_up(&events);
             }
             if busy {
+                if !delayed_outstanding.is_empty() {
+                    busy_wait_during_delay += 1;
+                }
                 thread::sleep(Duration::from_micros(200));
             } else {
                 let dl = t0 + limit;
@@ -714,8 +740,11 @@ pub fn run_with(case: &RCase, sched: &mut Schedule<'_>, poll: &mut dyn FnMut(&mu
             l.activity += 1;
             if p.label.starts_with("span:") {
                 // pseudo-gate: releasing it drops the object a callback left alive (outside the borrow)
-                let i = l.held.iter().position(|(id, _)| *id == p.id);
-                let obj = i.map(|i| l.held.remove(i).1);
+                let i = l.held.iter().position(|(id, ..)| *id == p.id);
+                let obj = i.map(|i| {
+                    let (_, o, tok) = l.held.remove(i);
+                    (o, tok, l.span_release_hook)
+                });
                 (p.waker, p.label, obj)
             } else {
                 l.released.insert(p.id);
@@ -723,7 +752,12 @@ pub fn run_with(case: &RCase, sched: &mut Schedule<'_>, poll: &mut dyn FnMut(&mu
                 (p.waker, p.label, None)
             }
         });
-        drop(dropped);
+        if let Some((obj, tok, hook)) = dropped {
+            if let Some(h) = hook {
+                h(obj.as_ref(), &tok);
+            }
+            drop(obj);
+        }
         quiescent.push(Quiescent { round, seq, at: Instant::now(), in_flight: in_flight.max(0) as usize, pending_labels: labels, action: label, branching: npend + extra, choice: raw_choice });
         w.wake();
     };
@@ -744,7 +778,8 @@ pub fn run_with(case: &RCase, sched: &mut Schedule<'_>, poll: &mut dyn FnMut(&mu
         }
         let before = PROBE.load(Ordering::SeqCst);
         let _ = panic::catch_unwind(|| panic::panic_any(ProbeMarker));
-        hook_restored = Some(PROBE.load(Ordering::SeqCst) == before + 1);
+        // exactly one more invocation, and by the very instance that was in place before the first poll
+        hook_restored = Some(PROBE.load(Ordering::SeqCst) == before + 1 && PROBE_LAST_GEN.load(Ordering::SeqCst) == gen_at_start);
     }
     install_probe_hook();
     let calls = with_lab(|l| std::mem::take(&mut l.calls));
@@ -765,5 +800,6 @@ pub fn run_with(case: &RCase, sched: &mut Schedule<'_>, poll: &mut dyn FnMut(&mu
         max_delayed_outstanding,
         unresumed,
         parser_polled_after_end: with_lab(|l| l.parser_polled_after_end),
+        busy_wait_during_delay,
     }
 }
